@@ -164,6 +164,9 @@ type resetSpec struct {
 	exempt  map[string]string // field -> reason (configuration set elsewhere / scratch written before read)
 	entry   map[string]string // field -> function whose entry must assign it ("convert", "newWithChunkMode")
 	zeroAll []string          // slice fields that must be zeroed over their whole range
+	// classifyOnly: the function is not a reset function; every field must merely be re-established somewhere in it
+	// (or be listed) — new carried fields of a pooled object are flagged until classified
+	classifyOnly bool
 }
 
 var resetSpecs = []resetSpec{
@@ -185,6 +188,8 @@ var resetSpecs = []resetSpec{
 			"progressiveWrite": "configuration fixed at construction",
 			"compressed":       "scratch: overwritten by ZSTDCompress (dst[:0]) before being read",
 		}},
+	{typ: "visitDocumentCtx", fn: "(*Segment).visitDocument", target: 1, mode: "fieldwise", classifyOnly: true,
+		exempt: map[string]string{"buf": "scratch: the decompression destination, overwritten by ZSTDDecompress (dst[:0]) before it is read"}},
 	{typ: "interim", fn: "(*interim).reset", target: 0, mode: "fieldwise", zeroAll: []string{"IncludeDocValues", "Postings"},
 		exempt: map[string]string{},
 		entry: map[string]string{
@@ -300,7 +305,7 @@ func init() {
 							}
 						}
 						for _, b := range fn.Blocks {
-							if _, isRet := b.Instrs[len(b.Instrs)-1].(*ssa.Return); isRet && !coveredOnAllPaths(fn, evBlocks, b) {
+							if _, isRet := b.Instrs[len(b.Instrs)-1].(*ssa.Return); isRet && !sp.classifyOnly && !coveredOnAllPaths(fn, evBlocks, b) {
 								dom = false
 							}
 						}
